@@ -21,7 +21,7 @@ def c08_case(draw):
                     if p_['t'] == 'l2':
                         p_['B'] = np.eye(s_['nz']).tolist()     # a plain ball: the compact layout of the second-order-cone dual
                         p_['r'] = draw(st.sampled_from([1.0, 1.0, 2.0]))
-        if draw(st.integers(0, 3)) == 0:
+        if draw(st.integers(0, 1)) == 0:
             # every set a product of plain unit balls over consecutive blocks of z (several cones with unit coefficients: the
             # compact layout must not merge cone heads); the rows keep their constants, a model that becomes infeasible is skipped
             for s_ in c['sets']:
@@ -29,8 +29,8 @@ def c08_case(draw):
                 if s_['nu'] or nz_ < 2:
                     continue
                 cut = draw(st.integers(1, nz_ - 1))
-                cen = [0.0] * nz_ if draw(st.booleans()) else s_['centre']
-                s_['pieces'] = [{'t': 'l2', 'c': list(cen), 'r': draw(st.sampled_from([1.0, 1.0, 1.0, 2.0])), 'style': 'plainsel', 'sel': sel,
+                cen = [0.0] * nz_ if draw(st.integers(0, 4)) > 0 else s_['centre']
+                s_['pieces'] = [{'t': 'l2', 'c': list(cen), 'r': draw(st.sampled_from([1.0, 1.0, 1.0, 1.0, 1.0, 2.0])), 'style': 'plainsel', 'sel': sel,
                                  'B': np.eye(nz_)[sel].tolist()} for sel in (list(range(cut)), list(range(cut, nz_)))]
                 s_['centre'] = list(cen)
         # deterministic convex constraints on x next to the robust rows (satisfied at the witness with slack)
